@@ -15,7 +15,16 @@ import (
 
 func init() { suites["C14"] = suiteC14 }
 
-func cmacCase(w *Writer, key, msg []byte, spare int, fill byte) {
+// the key is handed over in one buffer that is overwritten in place from call to call (a caller that keeps its key in a
+// fixed buffer): the result depends on the bytes in it at the time of the call, and the function leaves them alone
+var cmacKeyBuf = make([]byte, 16)
+
+func cmacCase(w *Writer, key0, msg []byte, spare int, fill byte) {
+	key := key0
+	if len(key0) == 16 {
+		copy(cmacKeyBuf, key0)
+		key = cmacKeyBuf
+	}
 	// the message is a sub-slice of a larger array: spare capacity, then sentinels
 	arr := make([]byte, len(msg)+spare+8)
 	copy(arr, msg)
@@ -37,13 +46,13 @@ func cmacCase(w *Writer, key, msg []byte, spare int, fill byte) {
 			return
 		}
 		// spare as the model sees it: bytes between len and cap; sentinels must be intact too
-		if !bytes.Equal(arr[len(msg)+spare:], before[len(msg)+spare:]) || !bytes.Equal(arr[:len(msg)], before[:len(msg)]) {
+		if !bytes.Equal(arr[len(msg)+spare:], before[len(msg)+spare:]) || !bytes.Equal(arr[:len(msg)], before[:len(msg)]) || !bytes.Equal(key, key0) {
 			obs = hx(tag) + " CORRUPT"
 			return
 		}
 		obs = hx(tag) + " " + hx(arr[len(msg):len(msg)+spare])
 	}()
-	w.Case("cmac", []string{kv("key", key), kv("msg", msg), kv("spare", before[len(msg):len(msg)+spare])}, obs)
+	w.Case("cmac", []string{kv("key", key0), kv("msg", msg), kv("spare", before[len(msg):len(msg)+spare])}, obs)
 	w.Count(fmt.Sprintf("cmac.len%%16=%d", len(msg)%16))
 	if spare > 0 && len(msg)%16 != 0 {
 		w.Count("cmac.nontrivial(spare>0,partial-block)")
